@@ -23,24 +23,60 @@ func parseFL(in []byte) (fl sipsp.PFLine, n int, e sipsp.ErrorHdr, pan string) {
 	return
 }
 
+// parseFLChunked delivers the line byte by byte (every prefix), resuming one object.
+func parseFLChunked(in []byte) (fl sipsp.PFLine, n int, e sipsp.ErrorHdr, pan string) {
+	p, msg, _ := core.Guard(func() {
+		offs := 0
+		for c := 1; c <= len(in); c++ {
+			n, e = sipsp.ParseFLine(in[:c], offs, &fl)
+			if e != sipsp.ErrHdrMoreBytes {
+				return
+			}
+			offs = n
+		}
+	})
+	if p {
+		pan = msg
+	}
+	return
+}
+
 // checkRequestLine: method SP uri SP version EOL must come back as exactly that.
 func checkRequestLine(w *core.Worker, meth, uri, ver, eol string) {
 	line := meth + " " + uri + " " + ver + eol
 	in := []byte(line + flPad)
-	fl, n, e, pan := parseFL(in)
+	for mode := 0; mode < 2; mode++ {
+		if !checkRequestLineMode(w, meth, uri, ver, line, in, mode == 1) {
+			return
+		}
+	}
+}
+
+func checkRequestLineMode(w *core.Worker, meth, uri, ver, line string, in []byte, chunked bool) bool {
+	var fl sipsp.PFLine
+	var n int
+	var e sipsp.ErrorHdr
+	var pan string
+	if chunked {
+		fl, n, e, pan = parseFLChunked(in)
+	} else {
+		fl, n, e, pan = parseFL(in)
+	}
 	w.Eval(1)
+	okAll := true
 	fail := func(what string) {
+		okAll = false
 		w.Fail("request-line", func() *core.Violation {
-			return core.V(fmt.Sprintf("request line %q: %s (verdict %s, offs %d, parsed %+v)", line, what, errName(e), n, fl), in, nil)
+			return core.V(fmt.Sprintf("request line %q (delivered byte by byte: %v): %s (verdict %s, offs %d, parsed %+v)", line, chunked, what, errName(e), n, fl), in, nil)
 		})
 	}
 	if pan != "" {
 		fail("panic " + pan)
-		return
+		return false
 	}
 	if e != sipsp.ErrHdrOk {
 		fail("well-formed request line not accepted")
-		return
+		return false
 	}
 	wantNo := ref.MethodNo([]byte(meth))
 	switch {
@@ -66,6 +102,7 @@ func checkRequestLine(w *core.Worker, meth, uri, ver, eol string) {
 	if me == sipsp.ErrHdrOk && (int(m.Method()) != wantNo || !m.Request()) {
 		fail(fmt.Sprintf("PSIPMsg.Method()=%d Request()=%v, expected %d", m.Method(), m.Request(), wantNo))
 	}
+	return okAll
 }
 
 func checkStatusLine(w *core.Worker, ver string, code int, reason, eol string) {
@@ -73,6 +110,9 @@ func checkStatusLine(w *core.Worker, ver string, code int, reason, eol string) {
 	line := ver + " " + cs + " " + reason + eol
 	in := []byte(line + flPad)
 	fl, n, e, pan := parseFL(in)
+	if code%2 == 1 {
+		fl, n, e, pan = parseFLChunked(in)
+	}
 	w.Eval(1)
 	fail := func(what, fnd string) {
 		w.Fail("status-line", func() *core.Violation {
@@ -142,7 +182,7 @@ var tokAlpha = []byte("abcdefghijklmnopqrstuvwxyzABCDEFGHIJKLMNOPQRSTUVWXYZ01234
 
 // RunC08 is the monitor for C08.
 func RunC08(r *core.Run) {
-	r.Rule = "case = one generated first line followed by >= 14 further bytes; request lines 'method SP uri SP version EOL' (methods: the 14 table names, all their one-edit neighbours and case variants, arbitrary tokens; URI / version arbitrary tokens; EOL in CRLF, LF, CR) must be accepted as a request with exactly the three tokens, MethodNo per the independent method table, offset after the terminator; status lines 'SIP/2.0 SP ddd SP reason EOL' (every code 000-999, version in every letter case, reasons incl. empty / spaces / tabs / 8-bit) must be accepted as a reply with Status = digits, Reason = text without terminator; near-miss lines (double space, tab separators, missing token, trailing space, 2/4-digit or non-digit status, missing space after the code) must not be accepted; distinct by construction (enumerated) / hash"
+	r.Rule = "case = one generated first line followed by >= 14 further bytes; request lines 'method SP uri SP version EOL' (methods: the 14 table names, all their one-edit neighbours and case variants, arbitrary tokens; URI / version arbitrary tokens; EOL in CRLF, LF, CR) delivered whole AND byte by byte (one resumed object), must be accepted as a request with exactly the three tokens, MethodNo per the independent method table, offset after the terminator; status lines 'SIP/2.0 SP ddd SP reason EOL' (every code 000-999, version in every letter case, reasons incl. empty / spaces / tabs / 8-bit) must be accepted as a reply with Status = digits, Reason = text without terminator; near-miss lines (double space, tab separators, missing token, trailing space, 2/4-digit or non-digit status, missing space after the code) must not be accepted; distinct by construction (enumerated) / hash"
 	r.Assume = []string{"'any token' = any bytes except SP HT CR LF; a request whose first 8 bytes are 'SIP/2.0 ' in any case is by definition a status line and not generated as a request"}
 	// A: all status codes x versions x reasons x eols
 	vers := []string{"SIP/2.0", "sip/2.0", "Sip/2.0", "sIP/2.0", "SIp/2.0", "siP/2.0"}
@@ -194,9 +234,9 @@ func RunC08(r *core.Run) {
 	st.Exhaustive = true
 	st.Space = "the 14 method names, their lower-case / first-letter / last-letter case variants and every one-edit neighbour (substitute/insert any byte value, delete, transpose) that is still a token, x 3 line ends, with rotating URI and version tokens"
 	// C: random tokens
-	r.Stage("request-lines/random-tokens", r.Pick(300000, 8000000), func(w *core.Worker, idx int64) {
+	r.Stage("request-lines/random-tokens", r.Pick(1500000, 20000000), func(w *core.Worker, idx int64) {
 		rr := core.NewRand(r.Seed, 0xC08, 3, uint64(idx))
-		m := string(rr.Bytes(rr.Range(1, 12), tokAlpha))
+		m := string(rr.Bytes(rr.Range(1, 30), tokAlpha))
 		if rr.Intn(3) == 0 {
 			m = ref.MethodList[rr.Intn(len(ref.MethodList))]
 		}
@@ -212,7 +252,7 @@ func RunC08(r *core.Run) {
 		w.Nontrivial(core.HashStr(m + " " + u + " " + v))
 	})
 	// D: first lines of generated messages (as the message generator writes them)
-	r.Stage("generated-message-first-lines", r.Pick(100000, 3000000), func(w *core.Worker, idx int64) {
+	r.Stage("generated-message-first-lines", r.Pick(500000, 8000000), func(w *core.Worker, idx int64) {
 		rr := core.NewRand(r.Seed, 0xC08, 4, uint64(idx))
 		m := gen.Msg(rr, gen.MsgOpts{MinHdrs: 1, MaxHdrs: 2})
 		line := m.Raw[:m.FLEnd]
@@ -274,7 +314,7 @@ func RunC08(r *core.Run) {
 	st.Exhaustive = true
 	st.Space = fmt.Sprintf("%d hand-enumerated grammar violations x 3 line ends", len(misses)/3)
 	// F: random near misses: take a valid line and break exactly one separator
-	r.Stage("near-misses/random", r.Pick(100000, 3000000), func(w *core.Worker, idx int64) {
+	r.Stage("near-misses/random", r.Pick(500000, 8000000), func(w *core.Worker, idx int64) {
 		rr := core.NewRand(r.Seed, 0xC08, 6, uint64(idx))
 		tok := func(n int) string { return string(rr.Bytes(rr.Range(1, n), tokAlpha)) }
 		m, u, v := tok(8), tok(12), tok(8)
